@@ -147,6 +147,8 @@ func (p *PolicyManager) Run() {
 	p.syncNetworkPolices()
 	p.syncNetworkPolicyRules()
 	p.syncPods()
+	// stale policy chains which were still referenced by pod chains can be deleted now
+	p.syncNetworkPolicyRules()
 }
 
 func (p *PolicyManager) syncPods() {
@@ -518,7 +520,7 @@ func (p *PolicyManager) syncIptables(polices []policy) error {
 	activeChains := map[utiliptables.Chain]bool{}
 	p.writeRules(polices, existingChains, filterChains, activeChains, filterRules)
 
-	p.writeChains(existingChains, activeChains, filterChains, filterRules)
+	p.writeChains(existingChains, activeChains, filterChains, filterRules, referencedChains(iptablesSaveRaw.Bytes()))
 	writeLine(filterRules, "COMMIT")
 
 	lines := append(filterChains.Bytes(), filterRules.Bytes()...)
@@ -529,15 +531,37 @@ func (p *PolicyManager) syncIptables(polices []policy) error {
 	return nil
 }
 
+// referencedChains returns the chains which are the jump target of some rule in the iptables-save output
+func referencedChains(save []byte) map[utiliptables.Chain]bool {
+	referenced := map[utiliptables.Chain]bool{}
+	for _, line := range strings.Split(string(save), "\n") {
+		fields := strings.Fields(line)
+		if len(fields) == 0 || fields[0] != "-A" {
+			continue
+		}
+		for i := 2; i+1 < len(fields); i++ {
+			if fields[i] == "-j" || fields[i] == "-g" {
+				referenced[utiliptables.Chain(fields[i+1])] = true
+			}
+		}
+	}
+	return referenced
+}
+
 func (p *PolicyManager) writeChains(existingChains map[utiliptables.Chain]string,
-	activeChains map[utiliptables.Chain]bool, filterChains *bytes.Buffer, filterRules *bytes.Buffer) {
+	activeChains map[utiliptables.Chain]bool, filterChains *bytes.Buffer, filterRules *bytes.Buffer,
+	referenced map[utiliptables.Chain]bool) {
 	// Delete chains no longer in use.
-	// TODO fix if any pod reference this policy chain
 	for chain := range existingChains {
 		if !activeChains[chain] {
 			chainString := string(chain)
 			if !strings.HasPrefix(chainString, policyChainPrefix) {
 				// Ignore chains that aren't ours.
+				continue
+			}
+			if referenced[chain] {
+				// A pod chain still jumps to it, iptables-restore would reject the whole batch with "resource busy".
+				// Delete it on the next sync after the pod chains have been rewritten.
 				continue
 			}
 			// We must (as per iptables) write a chain-line for it, which has
